@@ -84,7 +84,15 @@ func (this *RegisterSideChainParam) Deserialization(source *common.ZeroCopySourc
 	if eof {
 		return fmt.Errorf("source.NextVarBytes, deserialize CCMCAddress error")
 	}
-	ExtraInfo, _ := source.NextVarBytes()
+	// records written before the extra-info fork end here; anything that follows must be a
+	// complete ExtraInfo field
+	var ExtraInfo []byte
+	if source.Len() > 0 {
+		ExtraInfo, eof = source.NextVarBytes()
+		if eof {
+			return fmt.Errorf("source.NextVarBytes, deserialize ExtraInfo error")
+		}
+	}
 	this.Address = addr
 	this.ChainId = chainId
 	this.Router = router
